@@ -116,6 +116,12 @@ def _run(ctx):
                 if re.match(r"^BitOr\(Shl\(\*?(\w+)\[0\] as u16,8\),\*?\1\[1\] as u16\)$", t):
                     be = True
     ctx.ob(R, "title-decoder", bomr and be, "get_toc tests FE FF and assembles (x[0] << 8) | x[1]", gt.where(), what="get_toc's title decoder no longer mirrors the writer's FE FF / big-endian encoding")
+    # the title bytes reach the decoder as they were stored: nothing is popped, trimmed or filtered off them first (a UTF-16 title
+    # may end in a zero byte: U+xx00)
+    cut = [(F.canon_of(b_), c.ln, (c.fn or "").rsplit("::", 1)[-1]) for b_ in lib.local_scope(F, gt) for c in b_.calls
+           if re.search(r"Vec::<.*>::(pop|truncate|retain|drain|remove|dedup\w*|split_off)$|str::<impl str>::(trim\w*|strip_\w+)$|slice::<impl \[T\]>::(trim_ascii\w*|strip_\w+|split_last|rsplit\w*)$", c.fn or "")]
+    ctx.ob(R, "title-bytes-decoded-as-stored", not cut, "get_toc removes nothing from the title bytes before decoding them", gt.where(),
+           what="get_toc removes bytes from a title before decoding it (%s): a UTF-16 title whose last unit ends in a zero byte (or whatever else is cut) is rejected or changed on read-back" % [("%s line %d: %s" % t_) for t_ in cut[:3]])
     # sibling links
     nxt = have.get(b"Next", [])
     prv = have.get(b"Prev", [])
